@@ -23,11 +23,23 @@ inductive Outcome where
   | timeout
   deriving Repr, DecidableEq, Inhabited
 
-inductive Timer where
-  | none
-  | armed (due : Nat)                    -- queued, due = rounded deadline
-  | cancelled (due : Nat) (cat : Nat)    -- cancel() called at time `cat`
+/-- what became of the timer of a call whose stack has been drained -/
+inductive TimerEnd where
+  | none                                 -- there never was one
+  | cancelled (due : Nat) (cat : Nat)    -- cancel() was called at time `cat`
   | fired
+  deriving Repr, DecidableEq, Inhabited
+
+/-- life cycle of a call's sink stack as the front end sees it.
+    `live (some due)`: the _AsyncResponseSink frame and, above it, the ClientTimeoutSink frame
+    are on the stack and the timer is queued for `due` (the rounded deadline);
+    `live none`: only the response frame (no deadline);
+    `over`: the stack has been drained — whoever got there first (reply, fault, timer)
+    popped both frames; later arrivals find it empty. -/
+inductive Phase where
+  | waitOpen                       -- linked on the dispatcher's open result, not dispatched yet
+  | live (due : Option Nat)
+  | over (t : TimerEnd)
   deriving Repr, DecidableEq, Inhabited
 
 inductive OpenSt where
@@ -36,12 +48,10 @@ inductive OpenSt where
   deriving Repr, DecidableEq, Inhabited
 
 structure Call where
+  cid : Nat                 -- call number (issue order)
   issueT : Nat
   T : Nat                   -- timeout in µs; 0 = none
-  waitingOpen : Bool        -- linked on the dispatcher's open result
-  stackResp : Bool          -- the _AsyncResponseSink frame is on the call's stack
-  stackTmo : Bool           -- the ClientTimeoutSink frame is on the stack (above it)
-  timer : Timer
+  phase : Phase
   evtSet : Bool             -- Deadline event observable was set
   lowerGot : Bool           -- the request reached the sink below the timeout sink
   sets : List (Nat × Outcome)   -- every set / set_exception on the call's result, with time
@@ -56,40 +66,42 @@ structure FE where
 def FE.init : FE := ⟨0, .pending, []⟩
 
 /-- `sink_stack.AsyncProcessResponse` : pop the timeout frame (cancelling the timer), then the
-    response frame (setting the result) -/
+    response frame (setting the result); an empty stack ignores the message -/
+def cancelEnd (d : Option Nat) (now : Nat) : TimerEnd :=
+  match d with
+  | some due => .cancelled due now
+  | none => .none
+
 def Call.respond (c : Call) (now : Nat) (o : Outcome) : Call :=
-  let c1 := if c.stackTmo then
-      { c with stackTmo := false,
-               timer := match c.timer with
-                 | .armed due => .cancelled due now
-                 | t => t }
-    else c
-  if c1.stackResp then { c1 with stackResp := false, sets := c1.sets ++ [(now, o)] } else c1
+  match c.phase with
+  | .live d => { c with phase := .over (cancelEnd d now), sets := c.sets ++ [(now, o)] }
+  | _ => c
 
 /-- `_DispatchMethod` + the spawned `ClientTimeoutSink.AsyncProcessRequest`, run at `now` -/
 def Call.dispatch (c : Call) (now : Nat) : Call :=
-  let c0 := { c with waitingOpen := false }
-  if c0.T = 0 then { c0 with lowerGot := true }
-  else
-    let deadline := c0.issueT + c0.T
-    if deadline < now then
-      -- `_TimeoutHelper(None, sink_stack)` : nothing pushed, the request goes no further
-      c0.respond now .timeout
+  match c.phase with
+  | .waitOpen =>
+    if c.T = 0 then { c with phase := .live none, lowerGot := true }
     else
-      { c0 with timer := .armed (roundUp deadline), stackTmo := true, lowerGot := true }
+      let deadline := c.issueT + c.T
+      if deadline < now then
+        -- `_TimeoutHelper(None, sink_stack)` : nothing pushed, the request goes no further
+        { c with phase := .over .none, sets := c.sets ++ [(now, .timeout)] }
+      else
+        { c with phase := .live (some (roundUp deadline)), lowerGot := true }
+  | _ => c
 
-def newCall (now T : Nat) : Call :=
-  { issueT := now, T := T, waitingOpen := true, stackResp := true, stackTmo := false,
-    timer := .none, evtSet := false, lowerGot := false, sets := [] }
+def newCall (cid now T : Nat) : Call :=
+  { cid := cid, issueT := now, T := T, phase := .waitOpen, evtSet := false, lowerGot := false, sets := [] }
 
 def FE.updCall (s : FE) (i : Nat) (f : Call → Call) : FE :=
-  match s.calls[i]? with
-  | some c => { s with calls := s.calls.set i (f c) }
-  | none => s
+  { s with calls := s.calls.map (fun c => if c.cid = i then f c else c) }
 
-/-- `DispatchMethodCall` at time `at` -/
+def FE.callOf (s : FE) (i : Nat) : Option Call := s.calls.find? (fun c => c.cid == i)
+
+/-- `DispatchMethodCall` at time `at_` -/
 def FE.issue (s : FE) (T : Nat) (at_ : Nat) : FE :=
-  let c := newCall at_ T
+  let c := newCall s.calls.length at_ T
   let c' := match s.openSt with
     | .done _ _ => c.dispatch at_
     | .pending => c
@@ -101,33 +113,31 @@ def FE.openDone (s : FE) (ok : Bool) (at_ : Nat) : FE :=
   match s.openSt with
   | .done _ _ => { s with clock := at_ }
   | .pending =>
-    { clock := at_, openSt := .done ok at_,
-      calls := s.calls.map (fun c => if c.waitingOpen then c.dispatch at_ else c) }
+    { clock := at_, openSt := .done ok at_, calls := s.calls.map (fun c => c.dispatch at_) }
 
 /-- the environment posts response `o` into call `i`'s stack -/
 def FE.lower (s : FE) (i : Nat) (o : Outcome) (at_ : Nat) : FE :=
   ({ s with clock := at_ } : FE).updCall i (fun c => c.respond at_ o)
 
-/-- may the timer action of this call run at time `at_`? -/
+/-- may the timer action of this call run at time `at_`? (queued and due; or cancelled only
+    after the queue had already popped it) -/
 def Call.fireEnabled (c : Call) (at_ : Nat) : Bool :=
-  match c.timer with
-  | .armed due => decide (due ≤ at_)
-  | .cancelled due cat => decide (due ≤ at_) && decide (due ≤ cat)   -- popped before the cancel
+  match c.phase with
+  | .live (some due) => decide (due ≤ at_)
+  | .over (.cancelled due cat) => decide (due ≤ at_) && decide (due ≤ cat)
   | _ => false
 
 /-- the timer action `_TimeoutHelper(evt, sink_stack)` runs -/
 def Call.fire (c : Call) (now : Nat) : Call :=
-  let c1 := { c with evtSet := true,
-                     timer := match c.timer with
-                       | .armed _ => .fired
-                       | .cancelled _ _ => .fired
-                       | t => t }
-  -- the frame's own cancel() is a no-op on a popped item
-  let c2 := if c1.stackTmo then { c1 with stackTmo := false } else c1
-  if c2.stackResp then { c2 with stackResp := false, sets := c2.sets ++ [(now, .timeout)] } else c2
+  match c.phase with
+  | .live (some _) => { c with evtSet := true, phase := .over .fired, sets := c.sets ++ [(now, .timeout)] }
+  | .over (.cancelled _ _) => { c with evtSet := true, phase := .over .fired }
+  | _ => { c with evtSet := true }
 
-def FE.fire (s : FE) (i : Nat) (at_ : Nat) : FE :=
-  ({ s with clock := at_ } : FE).updCall i (fun c => if c.fireEnabled at_ then c.fire at_ else c)
+/-- the timer actions of the calls `cs` (distinct calls, so independent of each other) run -/
+def FE.fire (s : FE) (cs : List Nat) (at_ : Nat) : FE :=
+  { s with clock := at_,
+           calls := s.calls.map (fun c => if cs.contains c.cid && c.fireEnabled at_ then c.fire at_ else c) }
 
 def FE.tick (s : FE) (at_ : Nat) : FE := { s with clock := at_ }
 
